@@ -68,8 +68,7 @@ def can_jobs(model, config='le'):
     def mk(name, fmt, needed, enforce, replace, decl, call, H, rp, timeout=600):
         body = 'void harness(void)\n{\n' + havoc_w(H) + decl + '\n    ' + call + '\n    VP_CANARY();\n}\n'
         tu = hand_tu(model, [fmt], needed, 'can.h', body)
-        cm = dict(tags)
-        cm.update(tu.tags)
+        cm = dict(tags)       # tags of the replaced generated contracts are not obligations of this job
         rp = {k: (v.replace('%%', '%') if isinstance(v, str) else v) for k, v in rp.items()}
         rp = dict(rp, kind='custom', template=CAN_REPLAY, H=H, nw=40)
         return Job(name, tu.text(), srcs, enforce=enforce, replace=replace, owners=ow, clause_map=cm,
@@ -138,7 +137,6 @@ def vsspad_jobs(model, config='le'):
             '    Avtp_Vss_t *pdu; uint16_t len;\n    Avtp_Vss_Pad(pdu, len);\n    VP_CANARY();\n}\n')
     tu = hand_tu(model, ['vss'], ['Avtp_Vss_SetField'], 'vss_pad.h', body)
     cm = dict(tags)
-    cm.update(tu.tags)
     return [Job('Avtp_Vss_Pad/iface', tu.text(), ['src/avtp/acf/custom/Vss.c', 'src/avtp/Utils.c'], enforce='Avtp_Vss_Pad',
                 replace=['Avtp_Vss_SetField'], owners=ow, clause_map=cm, function='Avtp_Vss_Pad', kind='vss-pad',
                 config=config, extra_cc=['-DVP_BINDINGS'], timeout=600,
